@@ -14,6 +14,8 @@
     unsatisfiable one).
 (iii) long cores: strict cycles of 21-44 links (more ids than the solver prints on one line)
     followed by the same sets with one or two links removed.
+(iv) identifiers: thousands of structurally similar live constraints on one path must get pairwise
+    distinct assertion ids.
 Schedules: solver tasks completing inline before the next path (most cache use) or in the
 thread pool (default).
 """
@@ -414,15 +416,53 @@ def _run_api_tests(case, acc, a, cctx, V, setup_atoms, setup_path, dd):
     return fails
 
 
+def run_ids_case(case, acc=None):
+    """the cache identifies constraints by their assertion ids: distinct live constraints of one
+    query must get distinct ids (thousands of structurally similar conditions on one path)"""
+    from halmos.__main__ import mk_solver
+    from halmos.sevm import Path
+
+    a = e2e.mk_args(cache_solver=True)
+    x, y = z3.BitVec("p_x_uint256_00", 256), z3.BitVec("p_y_uint256_00", 256)
+    path = Path(mk_solver(a))
+    base = case["base"]
+    conds = []
+    for c in range(base, base + case["n"]):
+        conds += [x == c, z3.ULT(y, c + 1)] if case["two"] else [x == c]
+    # (Path.append is quadratic in the number of conditions; to_smt2 only reads the condition table)
+    for c_ in conds:
+        path.conditions[z3.simplify(c_)] = True
+    try:
+        q = path.to_smt2(a)
+    except z3.Z3Exception as e:
+        # e.g. 'named assertion defined twice': two live constraints were given the same id
+        if acc is not None:
+            acc.case(case, True, klass=["ids", "raise"])
+        return [(["ids", "to_smt2-raises"], f"{len(path.conditions)} distinct constraints (base {base}): {e!r}"[:300])]
+    ids = list(q.assertions)
+    fails = []
+    if len(ids) != len(path.conditions):
+        fails.append((["ids", "count"], f"{len(ids)} ids for {len(path.conditions)} conditions"))
+    if len(set(ids)) != len(ids):
+        import collections
+
+        dup = [k for k, v in collections.Counter(ids).items() if v > 1][:3]
+        fails.append((["ids", "not-unique"], f"{len(ids) - len(set(ids))} of {len(ids)} distinct live constraints share an assertion id, e.g. {dup} (base {base})"))
+    if acc is not None:
+        acc.case(case, True, klass=["ids", f"n:{len(ids)}"])
+    return fails
+
+
 def shards(tier):
     n = 9 if tier == "quick" else 200
-    return [{"mode": "e2e", "n": n} for _ in range(10)] + [{"mode": "api", "n": 5 * n} for _ in range(4)] + [{"mode": "chain", "n": n} for _ in range(2)]
+    return [{"mode": "e2e", "n": n} for _ in range(10)] + [{"mode": "api", "n": 5 * n} for _ in range(4)] + [{"mode": "chain", "n": n} for _ in range(2)] + [{"mode": "ids", "n": 3}]
 
 
 def run_shard(spec, seed, tier):
     acc = Acc()
-    fn = run_e2e_case if spec["mode"] == "e2e" else run_api_case
-    strat = {"e2e": case_st, "api": history_st, "chain": chain_st}[spec["mode"]]()
+    fn = run_e2e_case if spec["mode"] == "e2e" else (run_ids_case if spec["mode"] == "ids" else run_api_case)
+    ids_st = lambda: st.builds(lambda b, n_, two: {"kind": "ids", "base": b, "n": n_, "two": two}, st.sampled_from([0, 1 << 64, (1 << 255) - 3000]), st.sampled_from([6000, 4000]), st.booleans())  # noqa: E731
+    strat = {"e2e": case_st, "api": history_st, "chain": chain_st, "ids": ids_st}[spec["mode"]]()
 
     def body(case):
         for b, d in fn(case, acc):
@@ -433,6 +473,8 @@ def run_shard(spec, seed, tier):
 
 
 def run_case(case, acc=None):
+    if case.get("kind") == "ids":
+        return run_ids_case(case, acc)
     return run_e2e_case(case, acc) if case.get("kind") == "e2e" else run_api_case(case, acc)
 
 
